@@ -610,9 +610,17 @@ func (r *RegisteredDecoys) track(d *DecoyRegistration) error {
 		regID:            d.IDString(),
 		status:           regStatusUnused,
 	}
-	r.decoysTimeouts[d.IDString()+phantomAddr] = newTimeout
+	r.decoysTimeouts[timeoutIndex(phantomAddr, identifier)] = newTimeout
 
 	return nil
+}
+
+// timeoutIndex returns the key of the timeout record that belongs to the registration stored at
+// decoys[phantomAddr][identifier]. The textual phantom address never contains the separator, so
+// distinct registrations never share a timeout record (one secret may be registered with several
+// transports on the same phantom).
+func timeoutIndex(phantomAddr, identifier string) string {
+	return phantomAddr + "|" + identifier
 }
 
 func (r *RegisteredDecoys) register(darkDecoyAddr string, d *DecoyRegistration) error {
@@ -651,8 +659,13 @@ func (r *RegisteredDecoys) markActive(d *DecoyRegistration) {
 	r.m.Lock()
 	defer r.m.Unlock()
 
+	t, ok := r.transports[d.Transport]
+	if !ok {
+		return
+	}
+
 	phantomAddr := d.PhantomIp.String()
-	if regTimeout, ok := r.decoysTimeouts[d.IDString()+phantomAddr]; ok {
+	if regTimeout, ok := r.decoysTimeouts[timeoutIndex(phantomAddr, t.GetIdentifier(d))]; ok {
 		regTimeout.status = regStatusUsed
 
 		// Since we update the applicable timeout here, we should update that
